@@ -89,11 +89,16 @@ Section Session.
   Variable T : tyenv.
   Variable K : sconsts.
 
-  (* the scripted RequestAuthHandler of the harness: accepts credentials whose user name starts
-     with 'o' and returns the user name as the request-auth value *)
-  Definition req_auth_fn (auth : val) : option bytes :=
+  (* the scripted RequestAuthHandler of the harness.  Its verdict and its result depend on the
+     credentials AND on the session: it accepts credentials whose user name starts with 'o' unless
+     the user name ends in the character the session id ends in, and returns user name @ session id
+     as the request-auth value (so a verdict or a value carried over from another session shows) *)
+  Definition last_byte (b : bytes) : byte := List.last b x00.
+  Definition req_auth_fn (sid : bytes) (auth : val) : option bytes :=
     match get_field T (get_field T auth "CredentialValue") "Username" with
-    | VStr (x6f :: r) => Some (x6f :: r)
+    | VStr (x6f :: r) =>
+        if Byte.eqb (last_byte (x6f :: r)) (last_byte sid) then None
+        else Some ((x6f :: r) ++ [x40] ++ sid)
     | _ => None
     end.
 
@@ -201,7 +206,7 @@ Section Session.
         (evs0 ++ evs, Some resp, script') in
       if has_creds then
         if c_req_auth c then
-          match req_auth_fn auth with
+          match req_auth_fn (c_sid c) auth with
           | Some tok => go [EReqAuth auth true] (Some tok)
           | None => ([EReqAuth auth false], None, script)
           end
